@@ -22,7 +22,13 @@ def check_fn_tables(prog, res, rule, fns, alias=None, only_ok=False):
                         prog.bodies[fn].where(), detail={"got": got, "want": want})
 
 
+def _flat(rows):
+    """row values may be structured (lists of [place, value] pairs): render them as strings for the diff"""
+    return [[r[0], r[1] if isinstance(r[1], str) else json.dumps(r[1])] for r in rows]
+
+
 def diff_tables(got, want):
+    got, want = _flat(got), _flat(want)
     gs = {json.dumps(r) for r in got}
     ws = {json.dumps(r) for r in want}
     extra = sorted(gs - ws)
